@@ -1,4 +1,5 @@
 import CandidModel.Proofs.DeNeutral
+import CandidModel.Proofs.DeCost
 import CandidModel.Proofs.DeShift
 /-
   C07 — Decoding quotas bound the work and never change the result.
@@ -235,6 +236,14 @@ theorem cost_does_not_depend_on_quotas (bs : Bytes) (env : Env) (expected : List
   rw [hr1'] at hr2'
   simp only [Option.some.injEq] at hr2'
   exact ⟨hv, r1, r2, hr1, hr2, by omega⟩
+
+/-- **The cost is at least the number of values materialised** (zero-sized elements are not free): with a decoding
+quota `n` configured, a run that returns the values `vs` leaves `r` with `r + (number of value nodes in vs) ≤ n` —
+for every message, every expected type, every skipping quota, with back-tracking of options charged as well. -/
+theorem cost_is_at_least_the_number_of_values (bs : Bytes) (env : Env) (expected : List Ty) (n : Nat) (sq : Option Nat)
+    (vs : List Val) (st : St) (h : decodeWithConfig bs env expected ⟨some n, sq⟩ = .ok vs st) :
+    ∃ r, st.dq = some r ∧ r + vcountL vs ≤ n :=
+  decode_cost_ge_values bs env expected n sq vs st h
 
 /-- non-vacuity: a message that decodes under quotas, and what is left of the decoding quota -/
 example : (match decodeWithConfig [0x44, 0x49, 0x44, 0x4c, 0, 1, 0x7e, 1] [] [.prim .bool] ⟨some 1000, some 1000⟩ with
